@@ -548,6 +548,150 @@ static void removeStale(const std::string& dir) {
   closedir(d);
 }
 
+
+// ------------------------------------------------------------------ crashes of any rank
+// A fatal signal (GALOIS_DIE/assert abort, SIGSEGV, ...) or an ASan report inside the library call, on whichever
+// rank, becomes a violation event with a deterministic key written straight to the event file; the process then
+// leaves with the exit code the driver knows as "violation already recorded, restart after this case" (3) and
+// mpirun takes the other ranks down. Only armed while the library under test runs.
+#include <dlfcn.h>
+#include <execinfo.h>
+#include <fcntl.h>
+#if VERIF_ASAN
+extern "C" void __asan_set_error_report_callback(void (*)(const char*));
+#endif
+namespace crash {
+static char g_path[1024];
+static char g_head[1024];  // {"ev":"violation","case":K,"key":"C19:<component>:
+static char g_tail[6144];  // ,"params":{...}
+static volatile sig_atomic_t g_armed = 0;
+static unsigned g_rank               = 0;
+
+static size_t put(char* b, size_t at, size_t cap, const char* s) {
+  while (*s && at + 1 < cap)
+    b[at++] = *s++;
+  b[at] = 0;
+  return at;
+}
+static size_t putNum(char* b, size_t at, size_t cap, unsigned long v, unsigned base = 10) {
+  char t[32];
+  int n = 0;
+  do {
+    unsigned d = (unsigned)(v % base);
+    t[n++]     = (char)(d < 10 ? '0' + d : 'a' + d - 10);
+    v /= base;
+  } while (v && n < 31);
+  while (n && at + 1 < cap)
+    b[at++] = t[--n];
+  b[at] = 0;
+  return at;
+}
+// JSON-safe copy of arbitrary text
+static size_t putText(char* b, size_t at, size_t cap, const char* s, size_t maxn) {
+  for (size_t i = 0; s[i] && i < maxn && at + 1 < cap; ++i) {
+    unsigned char c = (unsigned char)s[i];
+    b[at++]         = (c < 0x20 || c == '"' || c == '\\' || c > 0x7e) ? ' ' : (char)c;
+  }
+  b[at] = 0;
+  return at;
+}
+static void emit(const char* kind, const char* what, const char* text, unsigned long addr) {
+  static char line[16384];
+  size_t n = 0;
+  n = put(line, n, sizeof line, g_head);
+  n = put(line, n, sizeof line, kind);
+  n = put(line, n, sizeof line, "\"");
+  n = put(line, n, sizeof line, g_tail);
+  n = put(line, n, sizeof line, ",\"detail\":{\"rank\":");
+  n = putNum(line, n, sizeof line, g_rank);
+  n = put(line, n, sizeof line, ",\"what\":\"");
+  n = putText(line, n, sizeof line, what, 200);
+  n = put(line, n, sizeof line, "\",\"fault_address\":\"0x");
+  n = putNum(line, n, sizeof line, addr, 16);
+  n = put(line, n, sizeof line, "\",\"frames\":[");
+  void* fr[24];
+  int nf = backtrace(fr, 24);
+  for (int i = 0; i < nf; ++i) {
+    Dl_info di;
+    const char* mod   = "?";
+    unsigned long off = (unsigned long)fr[i];
+    if (dladdr(fr[i], &di) && di.dli_fname) {
+      const char* sl = strrchr(di.dli_fname, '/');
+      mod            = sl ? sl + 1 : di.dli_fname;
+      off            = (unsigned long)fr[i] - (unsigned long)di.dli_fbase;
+    }
+    n = put(line, n, sizeof line, i ? ",\"" : "\"");
+    n = putText(line, n, sizeof line, mod, 40);
+    n = put(line, n, sizeof line, "+0x");
+    n = putNum(line, n, sizeof line, off, 16);
+    n = put(line, n, sizeof line, "\"");
+  }
+  n = put(line, n, sizeof line, "],\"report\":\"");
+  n = putText(line, n, sizeof line, text ? text : "", 1500);
+  n = put(line, n, sizeof line, "\"}}\n");
+  int fd = open(g_path, O_WRONLY | O_APPEND);
+  if (fd >= 0) {
+    ssize_t r = write(fd, line, n);
+    (void)r;
+    close(fd);
+  }
+}
+static void onSignal(int sig, siginfo_t* si, void*) {
+  if (!g_armed) {
+    signal(sig, SIG_DFL);
+    raise(sig);
+    return;
+  }
+  g_armed          = 0;
+  const char* name = sig == SIGSEGV ? "SIGSEGV" : sig == SIGABRT ? "SIGABRT" : sig == SIGBUS ? "SIGBUS" : sig == SIGFPE ? "SIGFPE" : "SIGILL";
+  char kind[32]    = "crash-";
+  put(kind, 6, sizeof kind, name);
+  emit(kind, sig == SIGABRT ? "abort() inside the library call (GALOIS_DIE / GALOIS_ASSERT / assert): message on stderr"
+                            : "fatal signal inside the library call",
+       "", (unsigned long)si->si_addr);
+  _exit(3);
+}
+#if VERIF_ASAN
+static void onAsan(const char* report) {
+  if (!g_armed)
+    return;
+  g_armed       = 0;
+  char kind[96] = "asan-";
+  const char* p = strstr(report, "AddressSanitizer: ");
+  size_t n      = 5;
+  if (p)
+    for (p += 18; *p && *p != ' ' && *p != '\n' && n + 1 < sizeof kind; ++p)
+      kind[n++] = *p;
+  kind[n] = 0;
+  emit(kind, "AddressSanitizer report inside the library call", report, 0);
+  _exit(3);
+}
+#endif
+static void install(const char* outPath, unsigned rank) {
+  snprintf(g_path, sizeof g_path, "%s", outPath);
+  g_rank = rank;
+  struct sigaction sa;
+  memset(&sa, 0, sizeof sa);
+  sa.sa_sigaction = onSignal;
+  sa.sa_flags     = SA_SIGINFO | SA_NODEFER;
+  sigemptyset(&sa.sa_mask);
+#if VERIF_ASAN
+  int sigs[] = {SIGABRT}; // memory errors: through the ASan report callback (keeps the diagnosis)
+  __asan_set_error_report_callback(onAsan);
+#else
+  int sigs[] = {SIGSEGV, SIGABRT, SIGBUS, SIGFPE, SIGILL};
+#endif
+  for (int sg : sigs)
+    sigaction(sg, &sa, nullptr);
+}
+static void arm(long k, const std::string& comp, const std::string& params) {
+  snprintf(g_head, sizeof g_head, "{\"ev\":\"violation\",\"case\":%ld,\"key\":\"C19:%s:", k, comp.c_str());
+  snprintf(g_tail, sizeof g_tail, ",\"params\":%s", params.c_str());
+  g_armed = 1;
+}
+static void disarm() { g_armed = 0; }
+} // namespace crash
+
 int main(int argc, char** argv) {
   {
     const char* rk = getenv("OMPI_COMM_WORLD_RANK");
@@ -569,6 +713,14 @@ int main(int argc, char** argv) {
       fprintf(stderr, "c19: MPI rank/size %d/%d differ from net.ID/Num %u/%u\n", r, s, me, np);
       return 2;
     }
+  }
+  {
+    const char* outp = nullptr;
+    for (int i = 1; i + 1 < argc; ++i)
+      if (!strcmp(argv[i], "--out"))
+        outp = argv[i + 1];
+    if (outp)
+      crash::install(outp, me);
   }
   const std::string dir = "/var/tmp/c19";
   long pid0             = (long)getpid();
@@ -680,6 +832,14 @@ int main(int argc, char** argv) {
     else if (N < np)
       comp += "/nodes<hosts";
     std::string cls;
+    const std::string params =
+        J().kv("component", comp).kv("scheme", cb.scheme).kv("dir", cb.dir).kv("hosts", np).kv("threads", threads)
+                     .kv("input", a.inCSC ? "CSC" : "CSR").kv("output", a.outCSC ? "CSC" : "CSR").kv("symmetric", a.symmetric)
+                     .kv("edgeData", a.edgeData ? "uint32" : "void").kv("fileEdgeSize", fileEsz).kv("defaults", a.defaults)
+                     .kv("cuspAsync", a.cuspAsync).kv("stateRounds", a.stateRounds).kv("readPolicy", a.readPolicy)
+                     .kv("nodeWeight", a.nodeWeight).kv("edgeWeight", a.edgeWeight).raw("mastersCuts", jarr(cuts))
+                     .kv("graph", kind).kv("nodes", N).kv("edges", M).kv("sleeper", sleeper < np ? (int)sleeper : -1)
+                     .kv("combo", ci).str();
     if (me == 0) {
       // version 1 without edge data and with an odd edge count: the 4 pad bytes at the end are optional
       auto writeGr = [&](const std::string& path, const ref::RefGraph& gg) {
@@ -703,13 +863,7 @@ int main(int argc, char** argv) {
         fclose(f);
       }
       H.hangKey = "C19:" + comp + ":hang";
-      H.begin(k, J().kv("component", comp).kv("scheme", cb.scheme).kv("dir", cb.dir).kv("hosts", np).kv("threads", threads)
-                     .kv("input", a.inCSC ? "CSC" : "CSR").kv("output", a.outCSC ? "CSC" : "CSR").kv("symmetric", a.symmetric)
-                     .kv("edgeData", a.edgeData ? "uint32" : "void").kv("fileEdgeSize", fileEsz).kv("defaults", a.defaults)
-                     .kv("cuspAsync", a.cuspAsync).kv("stateRounds", a.stateRounds).kv("readPolicy", a.readPolicy)
-                     .kv("nodeWeight", a.nodeWeight).kv("edgeWeight", a.edgeWeight).raw("mastersCuts", jarr(cuts))
-                     .kv("graph", kind).kv("nodes", N).kv("edges", M).kv("sleeper", sleeper < np ? (int)sleeper : -1)
-                     .kv("combo", ci).str());
+      H.begin(k, params);
     }
     MPI_Barrier(comm);
 
@@ -720,7 +874,9 @@ int main(int argc, char** argv) {
     if (pointProb)
       perturb_case(pseed ^ me, pointProb, 0, 20);
     mine.clear();
+    crash::arm(k, comp, params);
     RUNNERS[cb.policy](a, mine);
+    crash::disarm();
     perturb_off();
     progress();
 
